@@ -20,7 +20,7 @@ RULE = ('cases = (local maximum, peer-announced maximum) x seeded list of messag
         'seeded schedule and segmentation; thorough adds the full small grid max 7..40 x length '
         '0..3*(max-6)+2 through the simulated stack; oracle = wire monitor (R-codec/R-dimse) '
         'against the send-time snapshot; non-trivial = message with >= 2 fragments or a data '
-        'set; distinct = distinct (class, max, data kind, size, pcid); duplex family: the peer sends messages of its own for every k-th PDU it reads')
+        'set; distinct = distinct (class, max, data kind, size, pcid); duplex family: the peer sends messages of its own for every k-th PDU it reads; rel_mid family: the peer asks for release behind the k-th PDU it reads')
 ASSUMPTIONS = ['send snapshot = command set and data bytes at the instant Association.send is '
                'called (deep copy made by the harness)', 'sampling of the size/length grid',
                'the caller does not close a file it handed to send()']
@@ -41,6 +41,11 @@ def cases(tier, seed):
     for i in range(200 if tier == 'quick' else 8000):
         m = rnd.choice([16, 32, 64, 128, 1024])
         yield dict(local=m, peer=65536, seed=seed * 100049 + i, chatty=rnd.choice([1, 1, 2, 3]))
+    # the peer asks for release in the middle of it all: what the user still sends before it
+    # answers (P-DATA is legal until then) goes out whole
+    for i in range(120 if tier == 'quick' else 5000):
+        m = rnd.choice([16, 32, 64, 128, 1024])
+        yield dict(local=m, peer=65536, seed=seed * 100069 + i, rel_mid=rnd.choice([1, 2, 3, 5, 9]))
     # (the bulk comes after the small families so that a budget cut never drops those)
     n = 3000 if tier == 'quick' else 80000
     for i in range(n):
@@ -161,7 +166,8 @@ def run_case(case, want='c06'):
                       resend=0, pause=0)]
     out = dimse_send.run(case['seed'], case['local'], case['peer'], specs=specs,
                          nassoc=case.get('nassoc', 1), senders=case.get('senders', 1),
-                         fine=case.get('fine'), chatty=case.get('chatty', 0))
+                         fine=case.get('fine'), chatty=case.get('chatty', 0),
+                         rel_mid=case.get('rel_mid', 0))
     world = out['world']
     try:
         viol = []
